@@ -12,10 +12,10 @@ open Gen Model
 theorem minkowski_count (pattern path : Array Point64) (isSum isClosed : Bool) (r : List (List Point64))
     (h : minkowski pattern path isSum isClosed = .ok r) :
     r.length = (path.size - (if isClosed then 0 else 1)) * pattern.size := by
-  sorry
+  exact Proofs.C08.minkowski_count pattern path isSum isClosed r h
 
 theorem minkowski_quads (pattern path : Array Point64) (isSum isClosed : Bool) (r : List (List Point64))
     (h : minkowski pattern path isSum isClosed = .ok r) : ∀ q ∈ r, q.length = 4 := by
-  sorry
+  exact Proofs.C08.minkowski_quads pattern path isSum isClosed r h
 
 end C08
